@@ -4,7 +4,7 @@ cd "$(dirname "$0")/.." || exit 2
 bad=0
 make setup > .work_setup.log 2>&1 || { echo setup failed; tail -20 .work_setup.log; exit 2; }
 for seed in "$@"; do
-  for i in 01 02 03 04 05 06 07 08 09 10 11 12 13 14 15 16 17 18 19 20; do
+  for i in ${MS_PROPS:-01 02 03 04 05 06 07 08 09 10 11 12 13 14 15 16 17 18 19 20}; do
     s=$(date +%s)
     VERIF_SEED=$seed ./check C$i --tier quick > .work/ms_C${i}_$seed.log 2>&1; rc=$?
     echo "seed=$seed C$i rc=$rc $(( $(date +%s)-s ))s $(grep -c VIOLATION .work/ms_C${i}_$seed.log)"
